@@ -752,8 +752,19 @@ def rule_expected_type(ctx):
             continue
         big = max(ms, key=lambda m: len(m["arms"]))
         seen = {}
+        # the local(s) holding the checking mode (`switch`, destructured from the action parameter)
+        mode_locals = set(x["local"] for x in H.walk(h["body"]) if H.kind(x) == "Bind" and "check::Switch<" in (x.get("ty") or ""))
         for a in big["arms"]:
             former = A.pat_shape(a["pat"])
+            # an arm that never looks at the checking mode treats analysis like synthesis: whatever it is checked against is accepted
+            consults = any(H.kind(u) == "Path" and (H.path_local(u) or [None])[0] in mode_locals for u in H.walk(a["body"]))
+            if not H.exits_by_panic_only(a["body"]):
+                n += 1
+                ctx.check(consults, rule, "%s:%s:mode-consulted" % ("term" if tyname == "Term<" else "pattern", former),
+                          "the %s judgment of %s never looks at its checking mode: in analysis mode the expected type is ignored, so the "
+                          "former is accepted against ANY expected type (and a judgment that analysed it against `Ret _` / `Thk _` and "
+                          "then takes the result apart crashes)" % ("term" if tyname == "Term<" else "pattern", former),
+                          [loc[0], a["ln"]], detail={"former": former, "consults_mode": consults})
             for m in H.walk(a["body"]):
                 if not (H.kind(m) == "Match" and not m.get("src") and "check::Switch<" in (m.get("scrut_ty") or "")):
                     continue
